@@ -180,7 +180,7 @@ func parseKeyOriginInfo(keyExpression string) (*keyOriginInfo, error) {
 		return nil, nil
 	case 2:
 		keyOriginInfo := &keyOriginInfo{}
-		if keyExpressionSplit[0][0:1] != "[" {
+		if !strings.HasPrefix(keyExpressionSplit[0], "[") {
 			return nil, errors.New("key origin start '[ character expected but not found")
 		}
 
